@@ -8,6 +8,10 @@ fn build() -> Vec<Box<dyn Property>> {
     {
         let mut v: Vec<Box<dyn Property>> = vec![];
         for id in ["C10", "C11", "C12", "C13"] {
+            // a campaign run on behalf of one property evaluates that property's stages only
+            if std::env::var("VERIF_FUZZ_ONLY").map_or(false, |o| o != id) {
+                continue;
+            }
             for s in stages(id) {
                 if vcore::props::registry::fuzzable(&s) {
                     v.push(s.prop);
